@@ -1068,6 +1068,12 @@ func builtinNoOtherKeys(env *lisp.LEnv, args *lisp.LVal) *lisp.LVal {
 				allowedKeys[val.Str] = true
 			}
 		}
+		// input.Map() panics on anything but a sorted map, and nothing above
+		// has to have refused a non-map: with no child constraints, or under
+		// "any" with children that pass, the input arrives here unchecked.
+		if input.Type != lisp.LSortMap {
+			return lisp.ErrorConditionf(WrongType, "Invalid input for 'no-other-keys' - need a sorted map")
+		}
 		for _, mapKey := range input.Map().Keys().Cells {
 			if mapKey.Type != lisp.LString && mapKey.Type != lisp.LSymbol {
 				return lisp.ErrorConditionf(FailedConstraint, "Map is not allowed to have key '%s'", mapKey)
@@ -1204,7 +1210,10 @@ func builtinIsTruthy(_ *lisp.LEnv, _ *lisp.LVal) *lisp.LVal {
 				return lisp.Nil()
 			}
 		case lisp.LSortMap, lisp.LBytes:
-			if len(input.Cells) > 0 {
+			// Neither type keeps its contents in Cells (a map's entries and
+			// a byte string's bytes live behind Native), so the length has
+			// to come from Len.
+			if input.Len() > 0 {
 				return lisp.Nil()
 			}
 		case lisp.LString:
